@@ -114,6 +114,13 @@ void run(Ctx &ctx) {
       for (int v = 0; v < 256; v++) for (int cs = 0; cs < 3; cs++) { if (!ctx.mine(ti++) || ctx.expired()) continue;
           Str t = "%"; t += (cs == 1 ? HXL : HXU)[v >> 4]; t += (cs == 0 ? HXU : HXL)[v & 15];
           for (auto &u : { "//u" + t + "x@h/", "//h" + t + "x/p", "/a" + t + "b/" + t, "s:" + t + "b", "?q" + t, "#" + t + "f" }) { ctx.progress++; ra.run_uri(u, -1, -1, -1, true); rw.run_uri(u, -1, -1, -1, true); ctx.st.count("all_triplets"); } } }
+    // every printable character, raw, in every component where the grammar allows it (the case-folding decision for each letter in the
+    // scheme, the registered name, the IPvFuture and IPv6 literals; "leave alone" everywhere else) - is_uri_reference filters the illegal ones
+    { uint64_t ci = 0;
+      for (int c = 0x21; c < 0x7f; c++) { if (!ctx.mine(ci++) || ctx.expired()) continue; Str x(1, (char)c);
+          for (auto &u : { "a" + x + "b://h/", "A" + x + ":p", "//a" + x + "B/p", "//" + x + "/", "//u" + x + "U@h", "//[v1." + x + "A]/", "//[v" + x + ".a]", "//[V" + x + "b.Q" + x + "]", "//[::" + x + "]", "//[A" + x + "::1.2.3.4]:1",
+                           "/a" + x + "B", "a" + x + "/B", "?a" + x + "B", "#a" + x + "B", "S://H:1" + x, "//h" + x + ":8/" }) {
+              if (!ref::is_uri_reference(u)) continue; ctx.progress++; ra.run_uri(u, -1, -1, -1, true); rw.run_uri(u, -1, -1, -1, true); ctx.st.count("raw_character_sweep"); } } }
     { Runner<char> sa(&ctx, &lc, 520); Runner<wchar_t> sw2(&ctx, &lc, 520); std::vector<Str> st = stretch_list(ctx.secondary || ctx.quick() ? 0 : 1);
       for (size_t i = 0; i < st.size(); i++) { if (!ctx.mine(i)) continue; if (ctx.expired()) break; ctx.progress++; sa.run_uri(st[i], -1, -1, -1, true); sw2.run_uri(st[i], -1, -1, -1, true); ctx.st.count("stretch_family"); } }
     ctx.st.count("evaluations", lc.cases); ctx.st.count("normalize_calls", lc.calls); ctx.st.count("cases_where_normal_form_differs_from_input", lc.changed);
@@ -130,7 +137,7 @@ Str coverage(const Ctx &, const Stats &st) {
     return jkv("evaluations", st.get("evaluations")) + ", " + jkv("distinct_nontrivial", st.nset("normal_forms")) + ", " +
            jkvs("rule", "cases = (URI text, mask 0..63, borrowed/owned, default/ledger manager, char type). Corpus = product of component alternatives carrying case and percent-encoding variants (triplets of unreserved and reserved characters, both hex cases, triplets at and one short of the end of a component) and all path-token sequences up to length n over {'', '.', '..', a, c:d, %2e, %2E%2E, A, %41, %7e} in four contexts (relative reference, URI with rootless path, absolute path, under an authority). Each result is compared component by component with the reference normal form, normalised a second time (idempotence), and the mask-required laws are checked per URI. distinct_nontrivial = distinct expected normal-form texts.") + ", " +
            jkv("corpus_uris", st.get("corpus")) + ", " + jkv("normalize_calls", st.get("normalize_calls")) + ", " + jkv("cases_where_normal_form_differs_from_input", st.get("cases_where_normal_form_differs_from_input")) + ", " +
-           jkv("alt_spelling_used", st.get("alt_spelling_used")) + ", " + jkv("mask_required_zero", st.get("mask_required_zero")) + ", " + jkv("stretch_family_texts", st.get("stretch_family")) + ", " + jkv("all_triplet_uris", st.get("all_triplets")) + ", " + jsamples(st);
+           jkv("alt_spelling_used", st.get("alt_spelling_used")) + ", " + jkv("mask_required_zero", st.get("mask_required_zero")) + ", " + jkv("stretch_family_texts", st.get("stretch_family")) + ", " + jkv("all_triplet_uris", st.get("all_triplets")) + ", " + jkv("raw_character_sweep_uris", st.get("raw_character_sweep")) + ", " + jsamples(st);
 }
 Check chk = { "C08", "exploration", run, replay, coverage, "reference normal form (harness/ref.cpp) follows RFC 3986 6.2.2.1-3; where a relative path reduces to the current directory both '.' and './' are accepted|IPv6 hosts are compared through address bytes and recomposed text" };
 REGISTER_CHECK(chk);
